@@ -10,7 +10,7 @@ import Lumina.Gen.C47
 
 namespace Lumina.Props.C47
 open Lumina.Util Lumina.Model.Bech32 Lumina.Proofs.Bech32
-open Lumina.Spec.C47 (K Obs specDisplay specRoundTrip specParse)
+open Lumina.Spec.C47 (K Obs specDisplay specRoundTrip specParse specCorrupt)
 
 def specKind : Kind → K
   | .account => .account | .validator => .validator | .consensus => .consensus
@@ -214,5 +214,28 @@ theorem parse_spec (as : Option Kind) (s : Str) :
         · subst hk; simpa [parse, parseAs, hst, obsOf] using h
         · exact hkind k' rfl hk
     · exact hkind k' hk' hne
+
+/-- **all single-character corruptions are rejected** — every kind, every 20-byte id, every
+    position (prefix, separator, data, checksum) and every replacement code point (other alphabet
+    characters, upper case, `1`, non-alphabet, non-ASCII).  Uses GF(2)-linearity of the checksum
+    engine and the complete syndrome table of single errors over the 38 data+checksum positions,
+    which also shows that no single error turns the bech32 checksum into a valid bech32m one. -/
+theorem single_char_corruption_spec (k : Kind) (id : Bytes) (h : id.length = 20) (pos c : Nat) :
+    specCorrupt (addressToString k id) pos c (obsOf (parse none (addressToString k id)))
+      (obsOf (parse none ((addressToString k id).set pos c))) = true := by
+  unfold parse parseAddress
+  rw [stringToKindAndId_addressToString k id h]
+  simp only [obsOf, specCorrupt]
+  split
+  · rename_i hcond
+    simp only [Bool.and_eq_true, decide_eq_true_eq, bne_iff_ne, ne_eq] at hcond
+    obtain ⟨⟨-, hpos⟩, hne⟩ := hcond
+    have hc : (addressToString k id)[pos]? ≠ some c := by
+      intro hh
+      apply hne
+      simp [List.getD, hh]
+    obtain ⟨e, he⟩ := corrupt_rejected k id h pos c hpos hc
+    simp [he]
+  · rfl
 
 end Lumina.Props.C47
